@@ -594,7 +594,50 @@ func expectedRandom(r *Rng) c20Case {
 // (the renderer is never stopped when the result was decided before it started).
 var leaked []string
 
+// runVerdictLong: a tracker that is decided long before the increments stop (a plan that expects no performs and is
+// performed in 150 blocks; 150 blocks of surplus performs).  The block broadcaster calls Increment from inside its
+// loaders: it must return whatever the tracker does with the value.  Real time (the increments beyond the channel
+// buffer park goroutines for the life of the process, which a bubble would report).
+func runVerdictLong(t *testing.T, c *c20Case) {
+	pt := telemetry.NewProgressTelemetry(io.Discard)
+	pt.Start()
+	for i, tr := range c.Trackers {
+		_ = pt.Register(fmt.Sprintf("tracker-%d", i), tr.Total)
+	}
+	time.Sleep(20 * time.Millisecond)
+	blocked := false
+	for k := 0; !blocked; k++ {
+		sent := false
+		for i, tr := range c.Trackers {
+			if k < len(tr.Incs) {
+				done := make(chan struct{})
+				go func() { pt.Increment(fmt.Sprintf("tracker-%d", i), tr.Incs[k]); close(done) }()
+				select {
+				case <-done:
+				case <-time.After(3 * time.Second):
+					blocked = true
+				}
+				sent = true
+			}
+		}
+		if !sent {
+			break
+		}
+		time.Sleep(time.Millisecond)
+	}
+	if blocked {
+		leaked = append(leaked, c.Family+": ProgressTelemetry.Increment did not return (the caller is the block broadcaster: no further block is produced)")
+	}
+	_ = pt.Close()
+	c.Obs.Success = pt.AllProgressComplete()
+	c.term = verdictTerm(c)
+}
+
 func runVerdictCase(t *testing.T, c *c20Case) {
+	if strings.HasPrefix(c.Family, "long-") {
+		runVerdictLong(t, c)
+		return
+	}
 	defer func() {
 		if r := recover(); r != nil {
 			leaked = append(leaked, c.Family+": "+fmt.Sprint(r))
@@ -641,11 +684,21 @@ func verdictTerm(c *c20Case) string {
 	return fmt.Sprintf("mkVCase %s %s", CoqList(c.Trackers, trk), CoqBool(c.Obs.Success))
 }
 
+func ones(n int) []int64 {
+	out := make([]int64, n)
+	for i := range out {
+		out[i] = 1
+	}
+	return out
+}
+
 func verdictBoundary() []c20Case {
 	mk := func(fam string, delay int, ts ...c20Tracker) c20Case {
 		return c20Case{Kind: "verdict", Family: fam, Trackers: ts, RegisterDelayMs: delay}
 	}
 	return []c20Case{
+		mk("long-negative-broken-then-150-more-blocks", 0, c20Tracker{Total: 0, Incs: ones(151)}),
+		mk("long-reached-then-150-surplus-blocks", 0, c20Tracker{Total: 2, Incs: ones(152)}),
 		mk("exactly-reached", 0, c20Tracker{Total: 3, Incs: []int64{1, 1, 1}}),
 		mk("one-short", 0, c20Tracker{Total: 3, Incs: []int64{1, 1}}),
 		mk("exceeded-in-one-step", 0, c20Tracker{Total: 3, Incs: []int64{2, 5}}),
